@@ -653,6 +653,34 @@ class Gen:
                     self.add("bn_rec_glv", 0, name, -(k % n), lam)
 
 
+def frb_cases(g, wbits):
+    """bn_rec_frb: every sign combination of scalar and parameter, sub = 1..4, digits zero / maximal (cof = 0);
+    the Barreto-Naehrig lattice for parameters of both signs with n = n(x) (cof = 1)"""
+    rng = g.rng
+    xs = [2, -2, 3, -7, 255, -255, (1 << 16) + 1, -((1 << 16) + 1)]
+    if wbits >= 64:
+        xs += [0x4080000000000001, -0x4080000000000001, -0x600000000058F98A, (1 << 62) + (1 << 55) + 1, rng.getrandbits(60) | 1,
+               -(rng.getrandbits(63) | (1 << 62))]
+    for x in xs:
+        ax = abs(x)
+        for sub in (1, 2, 3, 4):
+            top = ax ** sub
+            ks = [0, 1, ax - 1, ax, ax + 1, top - 1, top // 2, ax ** (sub - 1), rng.randrange(top), rng.randrange(top)]
+            if sub > 1:
+                ks += [d0 + d1 * ax for d0 in (0, ax - 1) for d1 in (1, ax - 1)]             # a zero / maximal digit
+            for k in ks:
+                if k < top and k.bit_length() <= wbits * g.digs:
+                    for sg in (1, -1):
+                        g.add("bn_rec_frb", 0, sg * k, x, 1, str(sub), "0")
+        # BN lattice
+        n = 36 * x ** 4 + 36 * x ** 3 + 18 * x ** 2 + 6 * x + 1
+        if n > 1 and n.bit_length() <= wbits * g.digs and ax > 2:
+            for k in [0, 1, n - 1, n // 2, 6 * x * x % n, rng.randrange(n), rng.randrange(n), rng.randrange(n)]:
+                g.add("bn_rec_frb", 0, k, x, n, "4", "1")
+                if k:
+                    g.add("bn_rec_frb", 0, -k, x, n, "4", "1")
+
+
 def gen_cases(wbits, digs, rng, tier, glv=False):
     g = Gen(wbits, digs, rng, tier)
     g.reductions()
@@ -662,6 +690,7 @@ def gen_cases(wbits, digs, rng, tier, glv=False):
     g.primes()
     g.polys()
     g.recodings()
+    frb_cases(g, wbits)
     if glv:
         g.glv()
     return g.cases, dict(g.stats)
